@@ -390,6 +390,19 @@ def depfix_table(ctx):
     Q.require('dep' in states and 'target' in states, 'State members')
     for (s, t), (acts, out, nxt) in sorted(table.items()):
         writes = [a[1] for a in acts if a[0] == 'write']
+
+        def may(xs):
+            o = []
+            for a in xs:
+                if a[0] == 'write':
+                    o.append(a[1])
+                elif a[0] == 'branch':
+                    o += may(a[2]) + may(a[3])
+            return o
+        may_writes = may(acts)
+        if may_writes != writes:
+            # a conditional write is neither a certain echo nor no echo
+            writes = ['<conditional>'] + may_writes
         raises = out[0] == 'raise'
         if s == 'dep' and nxt != 'dep' and not raises:
             ctx.ob(R, '{}/{}|dep-terminated'.format(s, t),
